@@ -21,10 +21,12 @@ import (
 	"strings"
 	"time"
 
+	apkver "github.com/knqyf263/go-apk-version"
 	debver "github.com/knqyf263/go-deb-version"
 	rpmver "github.com/knqyf263/go-rpm-version"
 
 	"github.com/quay/claircore"
+	"github.com/quay/claircore/alpine"
 	"github.com/quay/claircore/aws"
 	"github.com/quay/claircore/debian"
 	"github.com/quay/claircore/libvuln/driver"
@@ -212,7 +214,7 @@ type env struct {
 }
 
 func matcherByName(name string) driver.Matcher {
-	for _, m := range append(rpmMatchers(), debMatchers()...) {
+	for _, m := range append(append(rpmMatchers(), debMatchers()...), matcher{"alpine", &alpine.Matcher{}}) {
 		if m.name == name {
 			return m.m
 		}
@@ -522,6 +524,8 @@ func Run(cfg hx.Config) error {
 	e.debWitness()
 	e.debCompareOps(cfg.N(5000, 150000))
 	e.debMatcherOps(cfg.N(40, 2000))
+	e.apkCompareOps(cfg.N(5000, 150000))
+	e.apkMatcherOps(cfg.N(40, 2000))
 	if err := e.flushPending(); err != nil {
 		return err
 	}
@@ -728,5 +732,135 @@ func (e *env) debOracle(name string, p pkg, a advisory, prank, frank int, got st
 	}
 	if got != fmt.Sprint(want) {
 		e.r.Fail("", fmt.Sprintf("%s: Vulnerable(package %q, fixed %q)=%s, by construction expected %v", name, p.version, a.fixed, got, want))
+	}
+}
+
+// ---- go-apk-version, alpine ----
+
+func apkCompare(a, b string) string { return sign(apkver.Version(a).Compare(apkver.Version(b))) }
+
+func (e *env) apkCompareOps(n int) {
+	r, rnd := e.r, e.rnd
+	for i := 0; i < n && !r.Stop(); i++ {
+		var a, b string
+		expect := 2
+		switch c := rnd.Intn(10); {
+		case c < 5:
+			x := genApk(rnd)
+			y := x
+			for k := rnd.Intn(3); k > 0; k-- {
+				y = mutateApk(rnd, y)
+			}
+			if rnd.Chance(1, 6) {
+				y = genApk(rnd)
+			}
+			a, b = renderApk(rnd, x, true), renderApk(rnd, y, true)
+			expect = cmpApk(x, y)
+			r.Count("apkcmp:structured")
+		case c < 8:
+			a, b = freeApk(rnd), freeApk(rnd)
+			if rnd.Chance(1, 2) {
+				b = edit(rnd, a, apkAlphabet)
+			}
+			r.Count("apkcmp:free")
+		default:
+			a = renderApk(rnd, genApk(rnd), true)
+			b = edit(rnd, a, apkAlphabet)
+			r.Count("apkcmp:edited")
+		}
+		got := timed(5*time.Second, func() string { return apkCompare(a, b) })
+		r.Op("apkcmp "+hexs(a)+" "+hexs(b), got, a != b)
+		r.Count("apkcmp:result:" + got)
+		if expect != 2 && got != sign(expect) {
+			r.Fail("", fmt.Sprintf("apk-order: Compare(%q,%q)=%s, the apk version scheme says %s", a, b, got, sign(expect)))
+		}
+		va := timed(5*time.Second, func() string { return fmt.Sprint(apkver.Valid(a)) })
+		if i%3 == 0 {
+			r.Op("apkvalid "+hexs(a), va, true)
+			r.Count("apkvalid:" + va)
+		}
+		if expect != 2 && va != "true" {
+			r.Fail("", fmt.Sprintf("apk-valid: Valid(%q)=%s for a well-formed version", a, va))
+		}
+		if va == "true" && timed(5*time.Second, func() string { return fmt.Sprint(apkver.Valid(b)) }) == "true" {
+			back := timed(5*time.Second, func() string { return apkCompare(b, a) })
+			if !mirror(got, back) {
+				r.Fail("", fmt.Sprintf("apk-antisymmetry: Compare(%q,%q)=%s but Compare(%q,%q)=%s", a, b, got, b, a, back))
+			}
+		}
+	}
+}
+
+func (e *env) apkChain(n int) []chainElem {
+	rnd := e.rnd
+	vs := []apkVer{genApk(rnd)}
+	for len(vs) < n {
+		vs = append(vs, mutateApk(rnd, vs[rnd.Intn(len(vs))]))
+	}
+	sort.SliceStable(vs, func(i, j int) bool { return cmpApk(vs[i], vs[j]) < 0 })
+	var out []chainElem
+	rank := 0
+	for i, v := range vs {
+		if i > 0 && cmpApk(vs[i-1], v) != 0 {
+			rank++
+		}
+		out = append(out, chainElem{rank, renderApk(rnd, v, false)})
+		if rnd.Chance(1, 5) {
+			out = append(out, chainElem{rank, renderApk(rnd, v, true)})
+		}
+	}
+	return out
+}
+
+func (e *env) apkMatcherOps(chains int) {
+	r, rnd := e.r, e.rnd
+	m := &alpine.Matcher{}
+	for c := 0; c < chains && !r.Stop(); c++ {
+		chain := e.apkChain(5 + rnd.Intn(4))
+		one := func(pv, fixed string, prank, frank int) {
+			p := pkg{version: pv}
+			if rnd.Chance(1, 4) {
+				p.arch = rnd.Pick(arches...)
+			}
+			a := advisory{fixed: fixed}
+			if rnd.Chance(1, 4) {
+				a.pkgArch, a.op = rnd.Pick(arches...), claircore.ArchOp(rnd.Intn(4)) // ignored by alpine
+			}
+			got := call(m, p, a, nil)
+			r.Op(vulnLine("alpine", p, a, nil), got, true)
+			r.Count("vuln:alpine:" + got)
+			var want bool
+			switch {
+			case fixed == "":
+				want = true
+			case fixed == "0":
+				want = false
+			case prank < 0 || frank < 0:
+				return // unparsable version: never reported (checked on the model side)
+			default:
+				want = prank < frank
+			}
+			if got != fmt.Sprint(want) {
+				r.Fail("", fmt.Sprintf("alpine: Vulnerable(package %q, fixed %q)=%s, by construction expected %v", pv, fixed, got, want))
+			}
+		}
+		for _, pe := range chain {
+			for _, fe := range chain {
+				if r.Stop() {
+					return
+				}
+				if rnd.Chance(1, 2) && pe.rank != fe.rank && pe.rank+1 != fe.rank && pe.rank != fe.rank+1 {
+					continue
+				}
+				one(pe.spell, fe.spell, pe.rank, fe.rank)
+			}
+			one(pe.spell, rnd.Pick("", "0", "0", "00", "0-r0"), pe.rank, -1)
+			if rnd.Chance(1, 3) {
+				// versions apk does not accept, on either side
+				bad := edit(rnd, pe.spell, "Z~+_-")
+				one(bad, chain[rnd.Intn(len(chain))].spell, -1, -1)
+				one(pe.spell, bad, -1, -1)
+			}
+		}
 	}
 }
